@@ -2,4 +2,6 @@
 /*@jobs
 for U in ns us ms s min h d:
   job entry=dur_{U} props=C14,C15 mode=native bounded=counts_-100000..100000,_the_64_extreme_counts_and_1,000,000_pseudo-random_counts_of_every_magnitude_(thorough:_10,000,000) desc=every_duration_prints_as_the_ISO-8601_duration_an_independent_formatter_produces_and_parses_back_to_the_identical_duration canary=off
+for U in ms s min h:
+  job entry=pdur_{U} props=C15 mode=native bounded=1,000,000_pseudo-random_designator_texts_(W/D/H/M/S_parts_of_every_magnitude_up_to_19_digits,_1/8_near_the_target's_limit,_signed;_thorough:_10,000,000) desc=a_valid_ISO-8601_duration_parses_to_exactly_the_denoted_duration_when_the_target_can_represent_it_and_raises_out_of_range_otherwise_(never_a_wrapped_value) canary=off
 @*/
